@@ -379,6 +379,7 @@ func (m *machine) step(ins instr) int {
 		s := m.r[1]
 		x := m.operand(ins.kind, true)
 		out = a.ct
+		implCmp := s.ct.Scale.Cmp(a.ct.Scale) // how the recorded scales compare before the call
 		if (x.class == "vec" || (x.class == "scalar" && !x.k.isInt)) && s.scale.Cmp(a.scale) == 0 && min(a.level, s.level)-e.k+1 < 0 {
 			m.defect = sigConstLevel0
 		}
@@ -458,6 +459,13 @@ func (m *machine) step(ins instr) int {
 			}
 		case "scalar", "vec":
 			cmp := s.scale.Cmp(a.scale)
+			if nearlyEqual(s.scale, a.scale) {
+				// rlwe.Scale is a 128-bit float: two scales that are mathematically equal (or differ far below the
+				// precision the check grants the recorded scale) may compare either way in the implementation,
+				// and MulThenAdd branches on that comparison. The model follows the branch the recorded scales select.
+				cmp = implCmp
+				c.Cover("mta-const", "scales-equal-up-to-rounding")
+			}
 			if cmp > 0 {
 				return m.expectError(ins, err, "op0.Scale > opOut.Scale")
 			}
@@ -606,6 +614,9 @@ func (m *machine) step(ins instr) int {
 		default:
 			out = m.freshOut()
 		}
+		if m.rescaleToUnderflows(a.scale, a.level, min) {
+			m.defect = "C06/RescaleTo/loop-reaches-level-minus-one"
+		}
 		err, pan := m.call(ins, func() error { return ev.RescaleTo(a.ct, scaleOfRat(min), out) })
 		if pan {
 			return stViolated
@@ -646,8 +657,8 @@ func (m *machine) step(ins instr) int {
 		if !ratio.IsInt() && a.level-e.k+1 < 0 {
 			m.defect = sigConstLevel0 // SetScale multiplies by the non-integer ratio first
 		}
-		if !ratio.IsInt() && a.level >= 1 && a.level-e.k < 0 {
-			// 128-bit mode, level 1: the inner RescaleTo loop runs while newLevel >= 0 and ends at level -1
+		if F, ok := e.rescaleFactor(a.level); ok && !ratio.IsInt() && m.rescaleToUnderflows(ratMul(a.scale, F), a.level, tgt) {
+			// the inner RescaleTo loop runs while newLevel >= 0: with a recorded scale of s·F it keeps dividing past level 0
 			m.defect = "C06/RescaleTo/loop-reaches-level-minus-one"
 		}
 		out = a.ct
@@ -742,6 +753,28 @@ func (m *machine) step(ins instr) int {
 	n.ct = out
 	m.r[0] = &n
 	return m.oracle(ins)
+}
+
+// rescaleToUnderflows: would RescaleTo's loop (divide by q_level while the quotient stays >= minScale/2, "for
+// newLevel >= 0") still accept the division by q_0? Then it ends at level -1 (known finding).
+func (m *machine) rescaleToUnderflows(scale *big.Rat, level int, min *big.Rat) bool {
+	half := ratQuo(min, big.NewRat(2, 1))
+	sc := scale
+	for l := level; l >= 0; l-- {
+		sc = ratQuo(sc, m.e.qAt(l))
+		if sc.Cmp(half) < 0 {
+			return false
+		}
+	}
+	return level >= 1
+}
+
+// nearlyEqual: relative difference below 2^-90.
+func nearlyEqual(a, b *big.Rat) bool {
+	d := new(big.Rat).Sub(a, b)
+	d.Abs(d)
+	d.Quo(d, b)
+	return d.Cmp(new(big.Rat).SetFrac(big.NewInt(1), new(big.Int).Lsh(big.NewInt(1), 90))) < 0
 }
 
 func min3(x int) int {
